@@ -522,8 +522,12 @@ func validateNames(b *backend, data *inputBundle, names []string) string {
 		// Variances are noted in-line
 
 		if data.role.AllowLocalhost {
-			if reducedName == "localhost" ||
-				reducedName == "localdomain" ||
+			// A wildcard name has had its wildcard label stripped from
+			// reducedName, so *.localhost reaches this point as "localhost";
+			// it is a subdomain form and is handled (only) by the
+			// allow_subdomains branch below.
+			if (!isWildcard && (reducedName == "localhost" ||
+				reducedName == "localdomain")) ||
 				(isEmail && emailDomain == "localhost") ||
 				(isEmail && emailDomain == "localdomain") {
 				continue
